@@ -24,7 +24,7 @@ use std::{
 pub static DEF: PropDef = PropDef {
     id: "C16",
     level: "exploration",
-    total: |t| t.pick(64, 1600),
+    total: |t| t.pick(512, 17600),
     run,
     rule: "generated lines, stars and rings of 1..5 routers over 2..6 /24 subnets with 1..3 hosts each (ARP + subnet info pointing at a router of their subnet), static routes computed by breadth-first search and then perturbed: kept, deleted (black hole), redirected to another neighbour (2- and 3-cycles) or pointed at an address nobody owns; every ordered host pair sends UDP datagrams of 1..1400 bytes, two thirds through the stack (initial TTL 30) and, for off-subnet destinations, one third as hand-built IPv4/UDP frames put on the wire by the source host after ARP resolution with an initial TTL of 0, 1, 2..5, 6..29, 30..64, 255 or uniform. A reference walk over the configured tables (own longest-prefix match) predicts, per datagram, the exact sequence of IPv4 frames (network, TTL = initial-k at hop k, a router drops what arrives with TTL 0 or 1, unchanged addresses and payload) and the final delivery or silent drop; the H4 hook's frame log and the hosts' recorder applications must match it exactly, and no frame may appear later. Non-trivial = topology with a path of >=2 router hops and >=1 looping or black-holed datagram; distinct by topology+routes hash.",
     assumptions: &[
